@@ -97,7 +97,7 @@ func runC01(args []string) error {
 	r := newRng(*seed).fork()
 	nMain, nBound, nFrag := 400, 1, 200
 	if *tier == "thorough" {
-		nMain, nBound, nFrag = 10000, 6, 3000
+		nMain, nBound, nFrag = 20000, 6, 4000
 	}
 	if *nMainF >= 0 {
 		nMain = *nMainF
